@@ -410,6 +410,9 @@ class ProdParser(object):
                     else:
                         yield token
                         yield next_
+                        # a real token: the S is handled, normal mode again
+                        # (else the S of a nested calc() would be eaten too)
+                        break
 
             elif token[0] == self.types.COMMENT:
                 # pass COMMENT
